@@ -233,6 +233,13 @@ func sampleCfgs(n, k int, seed int64) []int {
 
 type classKey struct{ harness, msg, pos string }
 
+func deepName(p map[string]int) string {
+	if s := paramStr(p); s != "" {
+		return s
+	}
+	return "(larger configuration sample)"
+}
+
 func jobKey(j Job) string { return fmt.Sprintf("%s/%d/%s", j.Harness, j.Cfg, paramStr(j.Params)) }
 
 func paramStr(p map[string]int) string {
@@ -461,7 +468,7 @@ func cmdCheck(args []string) int {
 			incomplete++
 		}
 		if r.TimedOut {
-			undis[fmt.Sprintf("out of bound: time budget used up before the deeper bound %v of %s was fully explored (the quick-tier bound of the same harness was)", paramStr(r.Job.Params), r.Job.Harness)]++
+			undis[fmt.Sprintf("out of bound: time budget used up before the deeper bound %v of %s was fully explored (the quick-tier bound of the same harness was)", deepName(r.Job.Params), r.Job.Harness)]++
 		}
 		for _, s := range r.Samples {
 			if len(samples) < 4 {
